@@ -628,6 +628,15 @@ func sortArray(v any) (any, error) {
 	r := slices.Clone(a)
 
 	if _, ok := a[0].(string); ok {
+		for _, v := range a {
+			if _, ok := v.(string); !ok {
+				return nil, &InvalidTypeError{
+					got:  reflect.TypeOf(v),
+					want: "string",
+				}
+			}
+		}
+
 		valid := true
 		var invalidType reflect.Type
 		slices.SortFunc(r, func(a, b any) int {
@@ -656,6 +665,15 @@ func sortArray(v any) (any, error) {
 		}
 
 		return r, nil
+	}
+
+	for _, v := range a {
+		if _, ok := toDecimal(v); !ok {
+			return nil, &InvalidTypeError{
+				got:  reflect.TypeOf(v),
+				want: "number",
+			}
+		}
 	}
 
 	valid := true
